@@ -123,6 +123,7 @@ type jEvent struct {
 	Fail  []jFail  `json:"fail,omitempty"`
 	Usage []jUsage `json:"usage,omitempty"`
 	Raw   string   `json:"raw,omitempty"` // t == "raw": datagram bytes (hex) sent as they are
+	Panic *jFail   `json:"panic,omitempty"` // the driver PANICS at this call (stands for an IE accessor of the dependency reading past a malformed IE)
 }
 
 type jCase struct {
@@ -176,6 +177,8 @@ type oEvent struct {
 	Dump  *pfcp.VerifDump `json:"dump"`
 	DP    [][3]uint64     `json:"dp"`    // model data plane content: (seid, kind index, id)
 	Fault string          `json:"fault"` // "" | "fatal:<msg>" | "hang"
+	// the scripted driver panic fired during this event (the handler was aborted there)
+	Panicked bool `json:"panicked,omitempty"`
 }
 
 // ---------------------------------------------------------------- ModelDP
@@ -188,6 +191,31 @@ type modelDP struct {
 	calls []oDrv
 	fail  map[string]bool
 	usage map[string][]jRpt
+	// scripted panic: "op/kind/id" of the driver call that panics; panicked: it fired
+	panicOn  string
+	panicked bool
+	// mode "timers": clock for time-stamping calls, artificial latency of every driver call
+	clock func() int64
+	hold  time.Duration
+	times []int64
+}
+
+func (d *modelDP) setClock(c func() int64) { d.mu.Lock(); d.clock = c; d.mu.Unlock() }
+func (d *modelDP) setHold(h time.Duration) { d.mu.Lock(); d.hold = h; d.mu.Unlock() }
+
+func (d *modelDP) takeTimed() []tmDrv {
+	d.mu.Lock()
+	defer d.mu.Unlock()
+	var out []tmDrv
+	for i, c := range d.calls {
+		t := int64(-1)
+		if i < len(d.times) {
+			t = d.times[i]
+		}
+		out = append(out, tmDrv{TMs: t, oDrv: c})
+	}
+	d.calls, d.times = nil, nil
+	return out
 }
 
 func newModelDP() *modelDP {
@@ -199,6 +227,10 @@ func (d *modelDP) script(ev *jEvent) {
 	defer d.mu.Unlock()
 	d.fail = map[string]bool{}
 	d.usage = map[string][]jRpt{}
+	d.panicOn, d.panicked = "", false
+	if ev.Panic != nil {
+		d.panicOn = fmt.Sprintf("%s/%s/%d", ev.Panic.Op, ev.Panic.Kind, ev.Panic.ID)
+	}
 	for _, f := range ev.Fail {
 		d.fail[fmt.Sprintf("%s/%s/%d", f.Op, f.Kind, f.ID)] = true
 	}
@@ -240,8 +272,26 @@ var errDP = fmt.Errorf("modelDP: error")
 
 func (d *modelDP) call(op, kind string, seid, id uint64) bool {
 	d.mu.Lock()
+	hold := d.hold
+	d.mu.Unlock()
+	if hold > 0 {
+		time.Sleep(hold) // the event loop is busy in this call: timer expiries and datagrams queue up meanwhile
+	}
+	d.mu.Lock()
 	defer d.mu.Unlock()
+	if d.clock != nil {
+		for len(d.times) < len(d.calls) {
+			d.times = append(d.times, -1)
+		}
+		d.times = append(d.times, d.clock())
+	}
 	key := [3]uint64{seid, kindIdx[kind], id}
+	if d.panicOn != "" && d.panicOn == fmt.Sprintf("%s/%s/%d", op, kind, id) {
+		// before anything reaches the data plane, as in the real driver (the IEs are decoded before the netlink request)
+		d.calls = append(d.calls, oDrv{op, kind, seid, id, false})
+		d.panicOn, d.panicked = "", true
+		panic("verif: scripted panic inside the driver call " + fmt.Sprintf("%s/%s/%d", op, kind, id))
+	}
 	present := d.rules[key]
 	scripted := d.fail[fmt.Sprintf("%s/%s/%d", op, kind, id)]
 	ok := false
@@ -250,6 +300,10 @@ func (d *modelDP) call(op, kind string, seid, id uint64) bool {
 		if !scripted && !present {
 			d.rules[key] = true
 			ok = true
+		} else if scripted && !present && d.fail[fmt.Sprintf("remove/%s/%d", kind, id)] {
+			// residue: the installation is reported as failed but the rule stays behind (scripted by a "remove" entry,
+			// which has no other meaning: removals never fail here)
+			d.rules[key] = true
 		}
 	case "update", "query":
 		ok = !scripted && present
@@ -261,6 +315,12 @@ func (d *modelDP) call(op, kind string, seid, id uint64) bool {
 	}
 	d.calls = append(d.calls, oDrv{op, kind, seid, id, ok})
 	return ok
+}
+
+func (d *modelDP) didPanic() bool {
+	d.mu.Lock()
+	defer d.mu.Unlock()
+	return d.panicked
 }
 
 func (d *modelDP) reports(op string, id uint32) []report.USAReport {
@@ -1014,6 +1074,7 @@ func runPfcpCase(f *fixture, c jCase) []oEvent {
 		}
 		o.Drv = dp.take()
 		o.DP = dp.table()
+		o.Panicked = dp.didPanic()
 		if fm, _ := fatalMsg.Load().(string); fm != "" {
 			o.Fault = "fatal:" + fm
 		} else if !alive {
